@@ -490,6 +490,20 @@ def guards(chk, fn, q):
                 chk.refuted('C08-R3', PS, q, key,
                             f'the search "while {xtxt} > {E}[{b} + 1]" is not preceded, in the same iteration, by the exit test '
                             f'"{xtxt} >= {E}[-1]": beyond the last edge the cursor runs off the edge array and the mode is mis-binned', node=w)
+        # the edge array a mode is compared against is the exact edge in mode units, rounded ONCE to the working precision:
+        # an edge at m*dk must become exactly m^2 so that on-edge modes fall deterministically into [lo, hi)
+        for E in sorted({E for (w, E, X) in cur['loops']}):
+            defs = [n_ for n_ in walk_no_nested(fn) if isinstance(n_, ast.Assign) and len(n_.targets) == 1 and unparse(n_.targets[0]) == E]
+            if len(defs) != 1:
+                continue
+            v = defs[0].value
+            casts = [x for x in ast.walk(v) if isinstance(x, ast.Call) and (
+                (isinstance(x.func, ast.Attribute) and x.func.attr == 'astype') or dotted(x.func) in ('dtype', 'np.float32', 'np.float16', 'np.single'))]
+            outer = isinstance(v, ast.Call) and ((isinstance(v.func, ast.Attribute) and v.func.attr == 'astype') or dotted(v.func) in ('dtype', 'np.asarray', 'np.array'))
+            inner = [c for c in casts if c is not v]
+            chk.check(not inner, 'C08-R3', PS, q, f'{E} is computed in double precision and rounded once', unparse(v)[:70],
+                      f'{E} = {unparse(v)[:80]}: the operands are rounded to the working precision ({unparse(inner[0])[:40] if inner else ""}) before the arithmetic, '
+                      'so an edge that coincides with a mode (m*dk) misses m^2 by an ulp and every mode on that edge moves to the neighbouring bin', node=defs[0], nontrivial=False)
         if not cur['ok']:
             chk.refuted('C08-R3', PS, q, f'cursor {b}', f'{b} is modified outside its search loops / initialisation to 0', node=fn)
     if n == 0:
